@@ -504,11 +504,14 @@ theorem handleRequest_frame (c : Core) (env : Env) (src : Addr) (ro : Bool) (ver
       · split <;> exact ⟨rfl, rfl⟩
       · exact ⟨rfl, rfl⟩
     · exact ⟨rfl, rfl⟩
-  unfold handleRequest serveRequest
-  obtain ⟨a1, a2⟩ := h2 (maybeAddNodeFromRequest c src version ro req env.now)
+  unfold handleRequest
   split
-  · exact ⟨a1.trans h1.1, a2.trans h1.2⟩
-  · exact ⟨a1.trans h1.1, a2.trans h1.2⟩
+  · exact ⟨rfl, rfl⟩
+  · unfold serveRequest
+    obtain ⟨a1, a2⟩ := h2 (maybeAddNodeFromRequest c src version ro req env.now)
+    split
+    · exact ⟨a1.trans h1.1, a2.trans h1.2⟩
+    · exact ⟨a1.trans h1.1, a2.trans h1.2⟩
 
 theorem putStep_inflight (q : PutQuery) (m : MessageType) : (putStep q m).inflight = q.inflight := by
   unfold putStep
